@@ -36,7 +36,7 @@ manifest = {
         "name": "lean4-proof+correspondence",
         "path": "lean/ (model, proofs, property theorems, driver) + harness/ (correspondence, oracle, evidence)",
         "serves_properties": [c["property_id"] for c in checks],
-        "kind_free_text": "machine-checked proof in Lean 4 about a hand-written executable model; the model is tied to /repo's current source on every run by a differential correspondence check (implementation vs Impl model vs Spec)",
+        "kind_free_text": "machine-checked proof in Lean 4 about a hand-written executable model; the model is tied to /repo's current source on every run by a differential correspondence check (implementation vs Impl model vs Spec); five pure helpers are additionally translated from the current source to Lean on every run and proved equal to the model (harness/pytrans.py, lean/Gen)",
     }],
     "checks": checks,
     "not_applicable": na,
